@@ -232,6 +232,36 @@ fn main() {
                 if un != ok_ot { report("C12", format!("to_object_iter_unchecked({}) yields {:?}, the checked iterator yields {:?}", show(d), un, ok_ot)); }
             }
         }
+        // C13: an OwnedLazyValue of a well-formed text serializes verbatim, its children are the exact source spans of
+        // the elements / members, and a clone taken after children were read still serializes verbatim
+        if want("C13") && ok {
+            let trimmed = txt.trim_matches(|c| c == ' ' || c == '\n' || c == '\t' || c == '\r');
+            let r = catch_unwind(AssertUnwindSafe(|| {
+                let olv: sonic_rs::OwnedLazyValue = match sonic_rs::from_str(txt) { Ok(v) => v, Err(e) => return Some(format!("from_str::<OwnedLazyValue>({}) rejects a well-formed text: {e}", show(d))) };
+                match sonic_rs::to_string(&olv) { Ok(s) if s == trimmed => {} other => return Some(format!("OwnedLazyValue of {} serializes to {:?}", show(d), other.ok())) }
+                if it.iter().all(|x| x.is_ok()) && !it.is_empty() {
+                    for (i, x) in it.iter().enumerate() {
+                        let raw = x.as_ref().unwrap().as_raw_str();
+                        match olv.get(i) { Some(c) => { let s = sonic_rs::to_string(c).unwrap_or_default(); if s != raw { return Some(format!("OwnedLazyValue of {}: child {i} serializes to {:?}, its source span is {:?}", show(d), s, raw)); } let _ = c.as_f64(); let _ = c.as_str(); } None => return Some(format!("OwnedLazyValue of {}: child {i} ({:?}) is missing", show(d), raw)) }
+                    }
+                }
+                if ot.iter().all(|x| x.is_ok()) && !ot.is_empty() {
+                    let keys: Vec<String> = ot.iter().map(|x| x.as_ref().unwrap().0.to_string()).collect();
+                    let dup = (0..keys.len()).any(|a| (0..a).any(|b| keys[a] == keys[b]));
+                    if !dup {
+                        for x in ot.iter() {
+                            let (k, lv) = x.as_ref().unwrap();
+                            let raw = lv.as_raw_str();
+                            match olv.get(&**k) { Some(c) => { let s = sonic_rs::to_string(c).unwrap_or_default(); if s != raw { return Some(format!("OwnedLazyValue of {}: member {:?} serializes to {:?}, its source span is {:?}", show(d), k, s, raw)); } let _ = c.as_f64(); let _ = c.as_str(); } None => return Some(format!("OwnedLazyValue of {}: member {:?} ({:?}) is missing", show(d), k, raw)) }
+                        }
+                    }
+                }
+                let c = olv.clone();
+                match sonic_rs::to_string(&c) { Ok(s) if s == trimmed => {} other => return Some(format!("clone of the OwnedLazyValue of {} (taken after its children were read) serializes to {:?}", show(d), other.ok())) }
+                None
+            }));
+            match r { Ok(None) => {} Ok(Some(m)) => report("C13", m), Err(_) => report("C13", format!("OwnedLazyValue of {}: an accessor panicked", show(d))) }
+        }
         // C14 / C10: checked get hands out only well-formed fragments after a well-formed prefix
         if want("C14") || want("C10") {
             for path in [vec![sonic_rs::PointerNode::Index(1)], vec![sonic_rs::PointerNode::Key("k".into())], vec![sonic_rs::PointerNode::Key("b".into())], vec![sonic_rs::PointerNode::Index(0)]] {
